@@ -453,11 +453,22 @@ def run(ctx):
         row = rows.get(c["id"], {})
         if "obs1" in row:
             t, _ = c17.coq_term(c, row)
-            if t is not None and len(t) <= 90000:
+            if t is not None and len(t) <= 60000:
                 terms.append((c["id"], t))
             elif t is not None:
                 skipped_model += 1      # very large logs (> 200 atoms) make the case file compile for minutes
-    failing, errors = C.coq_case_files("c18_family", c17.PREAMBLE, terms, per_file=30) if terms else ([], [])
+    # one evaluation of the dispatch model on the log of a 100-atom slab takes up to two minutes of vm_compute: small shards,
+    # long and short terms alternating, so that no shard runs into the per-file time limit
+    terms.sort(key=lambda t: len(t[1]))
+    mixed = []
+    lo, hi = 0, len(terms) - 1
+    while lo <= hi:
+        mixed.append(terms[hi])
+        if lo != hi:
+            mixed.append(terms[lo])
+        lo, hi = lo + 1, hi - 1
+    terms = mixed
+    failing, errors = C.coq_case_files("c18_family", c17.PREAMBLE, terms, per_file=6, timeout=2400) if terms else ([], [])
     if errors:
         raise RuntimeError("case files did not compile: " + json.dumps(errors)[:3000])
     failing = set(failing)
@@ -536,12 +547,15 @@ def run(ctx):
                          "apply to them; the conclusion was observed directly)" % len(dist["failing_contract_only"]))
 
     known = C.load_known(PID)
+    printed = set()
     reported = False
     for c, m, why, contr in sorted(bad_conclusion + [(c, m, w, []) for c, m, w in bad_invariance], key=lambda x: (any("Material2D, expected Surface" in w for w in x[2]), len(x[0]["numbers"]))):
         key = "c18:" + m["label"]
         k = C.known_match(known, key)
         if k:
-            ctx.known_finding(k)
+            if key not in printed:
+                printed.add(key)
+                ctx.known_finding(k)
             continue
         if not reported:
             ctx.violation({"kind": "family-member-fails", "case": slim_member(c, m), "failed_clauses": why, "contract_F1": contr, "key": key,
